@@ -78,9 +78,9 @@ class ScriptedRandom(contextlib.AbstractContextManager):
                 c = self.ch.choose(len(support), f"multinomial#{len(self.calls)}[{r},{s}]", probs)
                 row.append(support[c])
             rows.append(row)
-        res = torch.tensor(rows, dtype=torch.long, device=input.device)
+        res = torch.tensor(rows, dtype=torch.long, device=input.device).clone()
         self.calls.append(("multinomial", tuple(input.shape), res.tolist()))
-        return res[0] if squeeze else res
+        return res[0].clone() if squeeze else res
 
     # ---- bernoulli -----------------------------------------------------------------------
     def bernoulli(self, input, p=None, *, generator=None, out=None):
@@ -98,7 +98,7 @@ class ScriptedRandom(contextlib.AbstractContextManager):
             else:
                 c = self.ch.choose(2, f"bernoulli#{len(self.calls)}[{i}]", [1.0 - q, q])
                 vals.append(float(c))
-        res = torch.tensor(vals, dtype=input.dtype, device=input.device).view(input.shape)
+        res = torch.tensor(vals, dtype=input.dtype, device=input.device).view(input.shape).clone()  # a fresh tensor, not a view, like the real op
         self.calls.append(("bernoulli", tuple(input.shape), res.tolist()))
         return res
 
